@@ -81,8 +81,8 @@ decode_forms!(c12_dec_u16_0_known, c12_dec_u16_0_unknown, u16, 0);
 //@ props=C12,C04 tier=thorough bounds=E=u16;n=3;both-forms
 //@ props=C12,C04 tier=thorough bounds=E=u16;n=3;both-forms
 decode_forms!(c12_dec_u16_3_known, c12_dec_u16_3_unknown, u16, 3);
-//@ props=C12,C04 tier=quick bounds=E=(u8,u8);n=2;both-forms
-//@ props=C12,C04 tier=quick bounds=E=(u8,u8);n=2;both-forms
+//@ props=C12,C04 tier=thorough bounds=E=(u8,u8);n=2;both-forms
+//@ props=C12,C04 tier=thorough bounds=E=(u8,u8);n=2;both-forms
 decode_forms!(c12_dec_pair_2_known, c12_dec_pair_2_unknown, (u8, u8), 2);
 //@ props=C12,C04 tier=thorough bounds=E=Option<u8>;n=2;both-forms
 //@ props=C12,C04 tier=thorough bounds=E=Option<u8>;n=2;both-forms
@@ -191,7 +191,7 @@ fn trunc_unknown_form<T: desert_core::BinaryDeserializer>(b: &Buf) {
 }
 
 proof! {
-    //@ props=C08,C12 tier=quick bounds=unknown-length-form;E=u16;n=2;every-cut-point;targets:Vec,LinkedList,[E;2] cap=900
+    //@ props=C08,C12 tier=thorough bounds=unknown-length-form;E=u16;n=2;every-cut-point;targets:Vec,LinkedList,[E;2] cap=900
     fn c08_trunc_unknown_form_u16() unwind(10) {
         let xs = elems3::<u16>();
         let b = unknown_form(&xs, 2);
@@ -202,7 +202,7 @@ proof! {
 }
 
 proof! {
-    //@ props=C08,C12 tier=quick bounds=unknown-length-form;E=u8-in-LinkedList,Option<u8>-in-Vec;n=1;every-cut-point cap=900
+    //@ props=C08,C12 tier=off bounds=unknown-length-form;E=u8-in-LinkedList,Option<u8>-in-Vec;n=1;every-cut-point cap=900
     fn c08_trunc_unknown_form_small() unwind(10) {
         let xs = elems3::<Option<u8>>();
         let b = unknown_form(&xs, 1);
